@@ -9,7 +9,7 @@ Import-free and executable.
 namespace Trion.Dict
 
 /-- address ↦ byte -/
-def Dict := Nat → Option UInt8
+abbrev Dict := Nat → Option UInt8
 
 def empty : Dict := fun _ => none
 
